@@ -327,6 +327,27 @@ def _justify_push(ck, fm: FuncModel, loop, inner, cur, n, e, kind):
                 if n.id in adds or not (pre and post):
                     return True, f"seen set `{S}`"
                 return False, f"`{e.id}` is pushed without being inserted into `{S}`: it can be pushed again"
+    # (1b) a collection of elements filtered by `x not in S`, with S.update(<collection>) on the same paths
+    if kind == "coll" and isinstance(e, ast.Name):
+        sd_ = fm.single_def(e.id, n)
+        if sd_ and isinstance(sd_[1], (ast.ListComp, ast.SetComp)) and len(sd_[1].generators) == 1:
+            g_ = sd_[1].generators[0]
+            for c_ in g_.ifs:
+                if isinstance(c_, ast.Compare) and len(c_.ops) == 1 and isinstance(c_.ops[0], ast.NotIn) and isinstance(c_.comparators[0], ast.Name) \
+                        and isinstance(g_.target, ast.Name) and text(c_.left) == g_.target.id and text(sd_[1].elt) == g_.target.id:
+                    S = c_.comparators[0].id
+                    nodes = _nodes_in(fm, loop)
+                    if any(_calls_on(x, S, SHRINK) for x in nodes) or _assigns(fm, loop, S):
+                        return False, f"the seen set `{S}` can shrink inside the loop"
+                    ups = {x.id for x in nodes if any(c2.args and text(c2.args[0]) == e.id for c2 in _calls_on(x, S, {"update"}))}
+                    eloop = inner if inner is not None else loop
+                    ehdr = fm.cfg.loop_header[eloop].id
+                    between_ok = not any(_calls_on(fm.cfg.nodes[i], S, GROW) for i in _within(fm, eloop, sd_[0], {n.id}) if i != n.id
+                                         and i not in ups)
+                    if ups and (n.id in _within(fm, eloop, sd_[0], set()) ) and (ehdr not in _within(fm, eloop, n, ups) or
+                                                                                  any(fm.cfg.dominates(fm.cfg.nodes[u], n) for u in ups)):
+                        return True, f"seen set `{S}` (filtered collection)"
+                    return False, f"`{e.id}` is pushed without being inserted into `{S}`: its elements can be pushed again"
     # (2) expanded guard + expansion in the same iteration
     if inner is not None and cur is not None:
         guards = []
